@@ -773,6 +773,58 @@ def call_histories(ctx, binp, events, ops, module, what, chunk=None, extra_env=N
             ctx.notes.append("non-reproduced caller-history rejection dropped (call %d)" % b["i"])
 
 
+def call_concurrent(ctx, binp, events, ops, module, what, per_op=16, extra_env=None, chunk=None):
+    """Generic concurrent phase for drivers built on vMain (mode parreplay): recorded inputs of the pure operations `ops`
+    (accepted and rejected ones) are executed by 8 goroutines at the same time for a time budget; every distinct answer
+    per input is an event judged by the property's own trace specification.  A rejection is confirmed by running the
+    batch again (up to three times) and having TLC reject it again."""
+    items = []
+    for op in ops:
+        cand = [e for e in events if e["op"] == op and isinstance(e.get("in"), dict) and isinstance(e.get("out"), dict) and e["out"].get("panic", "") == ""]
+        good = [e for e in cand if e["out"].get("ok") is not False]
+        badk = {}
+        for e in cand:
+            if e["out"].get("ok") is False:
+                badk.setdefault(str(e["out"].get("err", "")), e)
+        step = max(1, len(good) // max(1, per_op - min(4, len(badk))))
+        pick, seen = [], set()
+        for e in good[::step] + list(badk.values())[:4]:
+            k = digest(e["in"])
+            if k not in seen and len(pick) < per_op:
+                seen.add(k)
+                pick.append(e)
+        items += [dict(op=op, **{"in": e["in"]}) for e in pick]
+    if len(items) < 2:
+        ctx.skipped.append("concurrent phase: no recorded inputs for %s" % ", ".join(ops))
+        return
+    d = ctx.rundir("call_concurrent")
+    write_ndjson(d + "/in.ndjson", items)
+    run_driver(ctx, binp, "parreplay", d + "/o.ndjson", infile=d + "/in.ndjson", extra_env=extra_env)
+    ev = read_ndjson(d + "/o.ndjson")
+    for i, e in enumerate(ev):
+        e["t"], e["i"] = 1, i + 1
+    note_events(ctx, ev, keep=0)
+    ctx.legs.setdefault("T_concurrent", []).append(dict(ops=list(ops), inputs=len(items), answers=len(ev)))
+    bad = validate_trace(ctx, module, ev, chunk=chunk, label="T_concurrent")
+    if not bad:
+        return
+    for k in range(3):
+        run_driver(ctx, binp, "parreplay", d + "/o%d.ndjson" % k, infile=d + "/in.ndjson", extra_env=extra_env)
+        again = read_ndjson(d + "/o%d.ndjson" % k)
+        for i, e in enumerate(again):
+            e["t"], e["i"] = 1, i + 1
+        ev0, tn0 = ctx.events, ctx.traces
+        again_bad = validate_trace(ctx, module, again, chunk=chunk, label="T_concurrent_again")
+        ctx.events, ctx.traces = ev0, tn0
+        if again_bad:
+            for b in bad[:3]:
+                conf = dict(b)
+                conf["concurrent"] = True
+                ctx.bad.append(dict(event=conf, reason=what + " (call made concurrently with other calls of the package; confirmed by a second concurrent run)"))
+            return
+    ctx.notes.append("concurrent rejection not reproduced in 3 re-runs, dropped: %s" % json.dumps(bad[0])[:300])
+
+
 def call_history_model(ctx):
     """Leg M of the caller-history model: the honest implementation is correct for every history up to Depth; each of the
     three flawed implementations (memo by reference, cache entry handed out, pooled result) violates `Correct` within the
